@@ -32,7 +32,12 @@ RULE = ("per session kind (rtmp Write / Writev, http-flv, http-ts, rtsp interlea
         "reading twin, UDP tracks with datagrams read back from loopback sockets, random schedules over random set-up states, and the same "
         "through a real logic.Group (OnRtpPacket + Tick); the join of a real rtmp player (handshake..play over a conn that stalls inside "
         "OnNewRtmpSubSession, with a message written from there); the measured cost of 100 writes to a full queue per kind.  "
-        "A case is non-trivial when the model output shows at least one rejected or dropped unit, a closed connection or a "
+        "INBOUND traffic of the subscribers (their own read loops run and are fed): an interleaved rtsp player in every TCP set-up state that "
+        "stops reading and keeps sending receiver reports on its RTCP channels / RTP on an RTP channel / packets on a channel of no track / "
+        "GET_PARAMETER / OPTIONS (reply through the queue at every occupancy, rejected when full) between sweeps, next to a reading twin that "
+        "sends the same; UDP players sending datagrams to lal's RTCP / RTP sockets; rtmp players that ack and ping (ping response at every "
+        "occupancy); http-flv / http-ts / WebSocket subscriptions that receive bytes; all of it also through a real Group and in random "
+        "schedules.  A case is non-trivial when the model output shows at least one rejected or dropped unit, a closed connection or a "
         "partially delivered unit (distinct by kind set, capacities and outcome signature)")
 ASSUMPTIONS = [
     "PARTIAL: the latency bound and the firing of the OS write deadline are runtime behaviour; the thorough tier measures them on loopback TCP (coverage.runtime), no theorem covers them",
@@ -43,6 +48,10 @@ ASSUMPTIONS = [
     "rtsp UDP tracks: a datagram write succeeds while the session is not disposed (loopback sockets, packets <= 1412 bytes); the harness disposes the "
     "sub session when its command connection closed itself, as rtsp.Server.handleTcpConnect does after RunLoop returns",
     "rtsp subscribers are driven with the SDP of the harness (video = payload type 96 / channel 0, audio = 97 / channel 2)",
+    "inbound: each inbound message is handed to the session's read loop whole, and the harness goes on when the loop waits for more (or has "
+    "ended); a reply of the read loop is made by that goroutine alone (the interleaving of a reply with fan-out writes of another goroutine is "
+    "covered by the theorems - units are atomic - not by the harness); at most 3 datagrams per socket kind and case are synchronised (lal logs "
+    "only the first three); rtsp over WebSocket: only requests are fed (an interleaved packet inside a WebSocket frame is a parse error)",
     "cost of a write to a full queue: measured (fastest of 3 batches of 100 writes, bound 1 ms per write = about 600 x the measured 1-2 us); the proof part "
     "is c15_one_attempt (one connection write call per unit in every queue state) tied to the code by the counted Write/Writev calls",
 ]
